@@ -208,10 +208,12 @@ static inline size_t varintAdaptiveMaxSize(size_t count) {
         return 1; /* Just header byte */
     }
 
-    /* Worst case: TAGGED encoding with 1 byte header + 9 bytes per value
-     * Header: 1 byte encoding type
-     * Data: worst case is tagged (9 bytes per uint64_t) */
-    return 1 + (count * 9);
+    /* Header: 1 byte encoding type.
+     * Worst case data: DICT chosen from a sampled uniqueness estimate for
+     * input that is in fact all distinct: dictionary size + count (two tagged
+     * varints, 9 bytes each), 9 bytes per dictionary entry and up to 8 index
+     * bytes per value. Every other encoding stays below this. */
+    return 1 + 18 + (count * 17);
 }
 
 /* Calculate compression ratio.
